@@ -3,10 +3,13 @@ import UralModel.Lemmas.FacebookBlank
 From "the parser returned this record" to the hypothesis of the round-trip theorem (C19,
 `ural/facebook.py`): the conditions of `reparsable` that say "no earlier route of the parser
 takes the canonical url" hold by themselves for a record the parser returned — because those
-earlier routes did not take the url it was parsed from — and so do the conditions "the field is
+earlier routes did not take the url it was parsed from —, and so do the conditions "the field is
 not empty" (`Lemmas/FacebookNonempty.lean`: repeated slashes are collapsed before routing,
-`parse_qs` holds no blank value, an empty set id is `None`, an empty album is no photo).  What
-is left as a hypothesis is the character-level condition on the fields (`charsOk`).
+`parse_qs` holds no blank value, an empty set id is `None`, an empty album is no photo) and "the
+path-borne field has no white space at its ends, no `/ ? #`, no TAB CR LF" (`pathFieldsClean`,
+from `Lemmas/FacebookBlank.lean`: the blanks around each segment are dropped before routing, the
+segments are pieces of the path `urlsplit` returned).  What is left as a hypothesis is `charsOk`:
+the characters that fail by design (`;`, dot segments, query metacharacters).
 -/
 namespace Ural.Facebook
 open Ural.Py Ural
